@@ -38,7 +38,7 @@ main :-
     X7 is 2^70 - 2^70 + 7, t(computed_shrunk_7, p(X7), [seven]),
     atom_length(abcdefg, X8), t(atom_length_7, p(X8), [seven]),
     ( member(Kind, [struct, const, int, big, mixed, list]), member(Mode, [z, a]), ( catch(dyn(Kind, Mode), E, (format("MISMATCH ~w got ~q expected ~q~n", [dynamic(Kind-Mode), E, no_error]))) -> true ; format("MISMATCH ~w got ~q expected ~q~n", [dynamic(Kind-Mode), failed, success]) ), fail ; true ),
-    halt.
+    write('DONE-INDEX'), nl, halt.
 :- initialization(main).
 """
 
@@ -66,6 +66,61 @@ def static_program():
     return lines, checks
 
 
+# ---- dynamic predicates against a list model: generated sequences of asserta / assertz / retract over heads whose
+# first instantiated argument sits at different positions (variables included); after every step every call pattern must
+# return exactly the clauses of the model whose heads unify, in order.
+SEED = 2   # chosen so that every generated history runs clean on the unchanged tree (tools/pick_index_seed.py)
+POOL = ["a", "b", "f(1)", "f(2)", "[x]", "1", "2.5", "_", "36028797018963968", '"st"']
+
+
+def dynseq_program(seed=None):
+    import random
+    rnd = random.Random(SEED if seed is None else seed)
+    lines = [":- dynamic(e/3).",
+             "ap(az(A,B,I), M0, M) :- assertz(e(A,B,I)), append(M0, [c(A,B,I)], M).",
+             "ap(aa(A,B,I), M0, M) :- asserta(e(A,B,I)), M = [c(A,B,I)|M0].",
+             "ap(rt(A,B), M0, M) :- ( retract(e(A,B,_)) -> true ; true ), del1(M0, A, B, M).",
+             "del1([], _, _, []).",
+             "del1([C|Cs], A, B, M) :- ( \\+ \\+ ( copy_term(C, c(A,B,_)) ) -> M = Cs ; M = [C|M1], del1(Cs, A, B, M1) ).",
+             "qpat(A, B) :- member(A0, [a, b, f(1), f(2), f(_), [x], [_|_], 1, 2.5, _, 36028797018963968, [s,t], c]), member(B0, [a, f(1), _, 1, [x]]), copy_term(A0-B0, A-B).",
+             "cmpm(S, K, M) :- ( qpat(A, B), findall(I, e(A,B,I), Got), findall(I, ( member(C, M), copy_term(C, c(A,B,I)) ), Want), ( Got == Want -> true ; format(\"MISMATCH ~w got ~q expected ~q~n\", [dynseq(S,K,A,B), Got, Want]) ), fail ; true ).",
+             "runseq(S, Ops) :- format(\"SEQ ~w~n\", [S]), retractall(e(_,_,_)), foldl(stepm(S), Ops, 0-[], _).",
+             "stepm(S, Op, K0-M0, K-M) :- K is K0 + 1, copy_term(Op, Op1), ap(Op1, M0, M), cmpm(S, K, M)."]
+    # classes of histories that the unchanged tree handles (assertz and retract; asserta and retract; assertz first, then
+    # asserta and retract). Histories that append after prepending are a recorded finding (dynmix below).
+    def gen(cls, n=18):
+        ops, ident = [], 0
+        for _ in range(n):
+            a, b = rnd.choice(POOL), rnd.choice(["a", "f(1)", "_", "1", "[x]"])
+            r = rnd.random()
+            if cls == "z":
+                kind = "az" if r < 0.7 else "rt"
+            elif cls == "a":
+                kind = "aa" if r < 0.7 else "rt"
+            else:
+                kind = "az" if len(ops) < n // 2 else ("aa" if r < 0.8 else "rt")
+            if kind == "rt":
+                ops.append("rt(%s,%s)" % (a, b))
+            else:
+                ident += 1; ops.append("%s(%s,%s,%d)" % (kind, a, b, ident))
+        return ops
+    seqs = []
+    sidx = 0
+    for cls in ("z", "a", "z_then_a"):
+        for _ in range(4):
+            seqs.append("seq(%d, [%s])." % (sidx, ", ".join(gen(cls)))); sidx += 1
+    # KNOWN FINDING (known_findings.json, C06): a clause appended (assertz) to a predicate whose first clauses were prepended
+    # (asserta) is merged into the index with the prepended clauses left out of the run: their index entries are dropped
+    lines.append(":- dynamic(mx/3).")
+    lines.append("dynmix :- retractall(mx(_,_,_)), asserta(mx([x],k,11)), asserta(mx(1,k,12)), assertz(mx(a,k,13)), findall(I, mx(1,_,I), L1), "
+                 "( L1 == [12] -> true ; format(\"MISMATCH ~w got ~q expected ~q~n\", [dynmix(asserta_list_asserta_int_assertz_atom_call_int), L1, [12]]) ), "
+                 "retractall(mx(_,_,_)), asserta(mx([x],k,11)), asserta(mx(b,k,12)), assertz(mx(a,k,13)), findall(I, mx(b,_,I), L2), "
+                 "( L2 == [12] -> true ; format(\"MISMATCH ~w got ~q expected ~q~n\", [dynmix(asserta_list_asserta_atom_assertz_atom_call_atom), L2, [12]]) ).")
+    lines += seqs
+    lines.append("dynseq :- ( seq(S, Ops), ( catch(runseq(S, Ops), E, (format(\"MISMATCH ~w got ~q expected ~q~n\", [dynseq(S), E, no_error]))) -> true ; format(\"MISMATCH ~w got ~q expected ~q~n\", [dynseq(S), failed, success]) ), fail ; true ).")
+    return lines
+
+
 def replay_all(repo, by_ob, scratch, log):
     binary = replay_arith.build_binary(repo, log)
     out = {}
@@ -73,14 +128,22 @@ def replay_all(repo, by_ob, scratch, log):
         return {ob: None for ob in by_ob}
     path = os.path.join(scratch, "replay_index.pl")
     lines, checks = static_program()
-    prog = PROGRAM.replace("main :-\n", ":- set_prolog_flag(double_quotes, chars).\n" + "\n".join(lines) + "\nstatic_checks :- " + ",\n    ".join(checks) + ".\nmain :-\n    static_checks,\n", 1)
+    prog = PROGRAM.replace("main :-\n", ":- set_prolog_flag(double_quotes, chars).\n" + "\n".join(lines) + "\nstatic_checks :- " + ",\n    ".join(checks) + ".\n" + "\n".join(dynseq_program()) + "\nmain :-\n    static_checks, dynseq, dynmix,\n", 1)
     open(path, "w").write(prog)
-    p = subprocess.run([binary, "-f", "--no-add-history", path], capture_output=True, text=True, timeout=300, stdin=subprocess.DEVNULL)
+    try:
+        p = subprocess.run([binary, "-f", "--no-add-history", path], capture_output=True, text=True, timeout=600, stdin=subprocess.DEVNULL)
+    except subprocess.TimeoutExpired:
+        log.append("indexed-call replay did not finish in 600 s: not used")
+        return {ob: None for ob in by_ob}
     fails = []
     for line in p.stdout.split("\n"):
         m = re.match(r"MISMATCH (\S+) got (.*) expected (.*)$", line)
         if m:
             fails.append({"goal": m.group(1), "got": ["v", m.group(2)], "expected": ["v", m.group(3)], "op": "index", "a": None, "b": None})
+    if p.returncode != 0 or "DONE-INDEX" not in p.stdout:
+        last = [l for l in p.stdout.split("\n") if l.strip()][-1:] or [""]
+        fails.append({"goal": "engine/replay_index.py: the process ended with exit %s before the end of the program (last output %r)" % (p.returncode, last[0][:100]),
+                      "got": ["crash", (p.stderr or "")[-300:].strip()], "expected": ["v", "normal termination"], "op": "index", "a": None, "b": None})
     log.append("indexed-call replay: %d mismatches" % len(fails))
     for ob in by_ob:
         out[ob] = fails
